@@ -48,7 +48,7 @@ def main(prop, tier, only=None, caps=None):
             shapes += [('hx_fs_long', [op, n], 'L%d/longop%d/src%d' % (L, op, n)) for op in range(10)]
         if L > 16:
             # the core operations at the capacities around the switch of the length type
-            shapes += [('hx_fs_core', [op, 0 if prop == 'C10' else 1], 'L%d/coreop%d' % (L, op)) for op in range(21) if not (prop == 'C10' and op in (0, 2, 4, 5, 12, 13, 14, 19, 20))]
+            shapes += [('hx_fs_core', [op, 0 if prop == 'C10' else 1], 'L%d/coreop%d' % (L, op)) for op in range(21) if not (prop == 'C10' and op in (0, 2, 4, 5, 12, 13, 14, 19, 20)) and not (tier == 'quick' and op == 11)]
         shapes += [('hx_fs_sprintf', [m], 'L%d/sprintf%d' % (L, m)) for m in range(5)]
         if only:
             shapes = [x for x in shapes if re.search(only, x[2])]
